@@ -117,6 +117,7 @@ type msess struct {
 type stats struct {
 	overflowThenRelease, releaseAfterReuse, twoForw bool
 	recreated                                       bool
+	createdAgain                                    bool // a Create PDR for a PDR that exists (refused), with the session going on
 	late                                            bool // notifications delivered after the removal of their PDR
 	rmWithURR                                       bool // a PDR and its URR removed by one message
 	lateSeid0                                       bool // a notification answered with SEID 0 after its session had ended
@@ -619,6 +620,20 @@ func run(c Case) (v *vcore.Violation, stt stats) {
 				continue
 			}
 			m := ms[ev.Sess]
+			if p := m.pdrs[ev.PDR]; p != nil && !p.removed {
+				// a Create PDR for a PDR the session has: the data plane refuses it and goes on buffering for the installed PDR; what
+				// is held for that PDR stays held (the model does not change)
+				o := r.Step(stack.Op{Kind: "mod", Peer: m.spec.Node, Sess: m.ref, Rules: []stack.RuleOp{
+					{Verb: "create", Kind: "PDR", ID: uint32(ev.PDR), Prec: 1, SrcIf: 1, UEIP: "10.60.0.1", FAR: p.far, QERs: p.qers}}})
+				if x := dead(o, what); x != nil {
+					return x, stt
+				}
+				stt.createdAgain = true
+				if g := drainGNBs(); len(g) > 0 {
+					return vcore.Violatef("unexpected-emission", "%s: packets emitted on a refused PDR creation", what), stt
+				}
+				continue
+			}
 			if p := m.pdrs[ev.PDR]; p == nil || !p.removed || m.fars[ev.FAR] == nil {
 				continue
 			}
@@ -742,7 +757,7 @@ func gen(t *rapid.T) Case {
 		c.Sess = append(c.Sess, genSess(t, uint64(0x60+i)))
 	}
 	// scripted cores make the interesting shapes frequent; free-form events follow
-	scen := rapid.SampledFrom([]string{"free", "free", "overflow", "twoforw", "reuse", "reuseorphan", "lateseid0", "reassocreuse", "recreate", "recreatelate", "dropshared"}).Draw(t, "scenario")
+	scen := rapid.SampledFrom([]string{"free", "free", "overflow", "twoforw", "reuse", "reuseorphan", "lateseid0", "reassocreuse", "recreate", "recreatelate", "createagain", "dropshared"}).Draw(t, "scenario")
 	if scen != "free" {
 		c.Sess[0].FARs[0].Action = rapid.SampledFrom([]uint16{BUFF, BUFF | NOCP}).Draw(t, "a0")
 		c.Sess[0].PDRs[0].FAR = 1
@@ -780,6 +795,9 @@ func gen(t *rapid.T) Case {
 		// packets buffered for PDR 1, PDR 1 removed (in half of the cases together with its URR) and created again, more packets,
 		// release: only the new ones may come out
 		c.Evs = append(c.Evs, small(), Ev{Kind: "rmpdr", Sess: 0, PDR: 1, WithURR: rapid.Bool().Draw(t, "rm_with_urr")}, Ev{Kind: "mkpdr", Sess: 0, PDR: 1, FAR: 1}, small(), forw)
+	case "createagain":
+		// packets buffered for PDR 1, a Create PDR 1 that the data plane refuses, more packets, release: all of them, in order
+		c.Evs = append(c.Evs, small(), Ev{Kind: "mkpdr", Sess: 0, PDR: 1, FAR: 1}, small(), forw)
 	case "twoforw":
 		c.Evs = append(c.Evs, small(), forw, Ev{Kind: "updfar", Sess: 0, FAR: 1, Action: BUFF}, small(), forw)
 	case "reuseorphan":
@@ -897,6 +915,9 @@ func account(c Case, s stats) {
 	}
 	if s.lateSeid0 {
 		vcore.E.Class("seid0_answer_for_a_notification_of_an_ended_session")
+	}
+	if s.createdAgain {
+		vcore.E.Class("create_pdr_for_a_pdr_that_exists")
 	}
 	if s.late {
 		vcore.E.Class("notifications_delivered_after_the_removal_of_their_pdr")
